@@ -165,7 +165,12 @@ theorem C13_gen : Gen.handshakeAnswerHandlers =
     Gen.dwrCloses = (0, 1) ∧ Gen.dwrLoopCond = "(i<((int(cli.MaxRetransmits)+1)))" ∧
     -- one watchdog cycle per WatchdogInterval; each DWR waits RetransmitInterval for its answer
     Gen.clientTimers.filter (fun t => t.1 ≠ "handshake") =
-      [("watchdog", "cli.WatchdogInterval"), ("dwr", "cli.RetransmitInterval")] := by decide
+      [("watchdog", "cli.WatchdogInterval"), ("dwr", "cli.RetransmitInterval")] ∧
+    -- `handleDWR` parses, answers from the request, writes; `handleDWA` parses and acknowledges to
+    -- the connection's own state: no further condition on the message (`dwa`, `WD.step`)
+    Gen.handleDWRCalls = ["new", "dwr.Parse", "sm.Error", "m.Answer", "a.NewAVP", "a.NewAVP", "datatype.Unsigned32",
+      "a.NewAVP", "a.WriteTo", "sm.Error"] ∧
+    Gen.handleDWACalls = ["new", "dwa.Parse", "sm.Error", "clientConnStateOf"] := by decide
 
 /-- non-vacuity: budget 1; first cycle answered early (before the select), second cycle
     answered on the retransmission, third cycle silent: closed after two DWRs -/
